@@ -55,19 +55,19 @@ pub fn normalize_separators(path: &str) -> String {
 /// should match everything (like `**`), `GlobSet` handles empty strings correctly.
 #[must_use]
 pub(crate) fn normalize_for_matching(path: &Path) -> PathBuf {
+    // Backslashes are separators on every platform (Windows-style spellings in patterns and keys)
+    let unified = path.to_string_lossy().replace('\\', "/");
+    let unified = Path::new(&unified);
+
     // An absolute path below the current directory is matched by its relative form, so that
     // `check /abs/project` and `check .` see the same patterns
-    let relative = strip_current_dir(path);
-    let path_str = relative.as_deref().unwrap_or(path).to_string_lossy();
-
-    // Backslashes are separators on every platform (Windows-style spellings in patterns and keys)
-    let unified = path_str.replace('\\', "/");
+    let relative = strip_current_dir(unified);
 
     // Rebuild the path from its components: this drops `.` components and repeated or trailing
     // separators, so `./src/a.rs`, `src//a.rs`, `src/./a.rs` spell `src/a.rs` and `src/`, `src/.`
     // spell `src`. The project root (`.`, `./`) becomes the empty path (see doc comment).
     let mut normalized = PathBuf::new();
-    for component in Path::new(&unified).components() {
+    for component in relative.as_deref().unwrap_or(unified).components() {
         if component != std::path::Component::CurDir {
             normalized.push(component.as_os_str());
         }
@@ -75,14 +75,20 @@ pub(crate) fn normalize_for_matching(path: &Path) -> PathBuf {
     normalized
 }
 
-/// Relative form of an absolute path that lies below the current directory
-/// (empty for the current directory itself), `None` for every other path.
+/// Relative form of an absolute path (separators already unified) that lies below the current
+/// directory (empty for the current directory itself), `None` for every other path.
 fn strip_current_dir(path: &Path) -> Option<PathBuf> {
     static CWD: std::sync::OnceLock<Option<PathBuf>> = std::sync::OnceLock::new();
     if !path.is_absolute() {
         return None;
     }
-    let cwd = CWD.get_or_init(|| std::env::current_dir().ok()).as_deref()?;
+    let cwd = CWD
+        .get_or_init(|| {
+            std::env::current_dir()
+                .ok()
+                .map(|dir| PathBuf::from(dir.to_string_lossy().replace('\\', "/")))
+        })
+        .as_deref()?;
     path.strip_prefix(cwd).ok().map(Path::to_path_buf)
 }
 
